@@ -189,7 +189,8 @@ fn diamond_library(r: &mut Rng) -> Vec<(String, String)> {
         lib.push((format!("m{}", j), t));
     }
     for k in 0..nr {
-        let mut t = format!("# Root {}\n\n", k);
+        // the first heading of a root may hold a link to another note, with a text of its own
+        let mut t = if r.chance(1, 2) { format!("# Root {} about [an old name](l0)\n\n", k) } else { format!("# Root {}\n\n", k) };
         for j in 0..nm {
             t.push_str(&format!("[m](m{})\n\n", j));
         }
